@@ -10,7 +10,7 @@
 //!     R <sec0> <step> <count> <nsec>       the instants sec0 + i*step (i = 0..count-1), all with <nsec>
 //! Instants are processed in file order.
 //!
-//! Output 1 (strings file): one line per instant, the string the real code produced, or `!panic <msg>` /
+//! Output 1 (strings file): one line per instant, the string the real code produced, or `!panic` /
 //! `!unrepresentable` (std could not build the SystemTime).  This is what is diffed against the Coq model.
 //!
 //! Output 2 (stdout, JSON lines): the *oracle*, evaluated here on the real output for volume (the driver
@@ -39,13 +39,14 @@ fn system_time(sec: i64, nsec: u32) -> Option<SystemTime> {
     }
 }
 
-fn real_format(sec: i64, nsec: u32, buf: &mut String) {
+/// Writes the string (or `!panic` / `!unrepresentable` / `!fmt-error`) into `buf`; returns the panic message.
+fn real_format(sec: i64, nsec: u32, buf: &mut String) -> Option<String> {
     buf.clear();
     let t = match system_time(sec, nsec) {
         Some(t) => t,
         None => {
             buf.push_str("!unrepresentable");
-            return;
+            return None;
         }
     };
     let r = panic::catch_unwind(|| {
@@ -64,9 +65,11 @@ fn real_format(sec: i64, nsec: u32, buf: &mut String) {
                 "?".to_string()
             };
             let msg: String = msg.chars().map(|c| if c == '\n' || c == '\r' { ' ' } else { c }).collect();
-            let _ = write!(buf, "!panic {}", msg);
+            buf.push_str("!panic");
+            return Some(msg);
         }
     }
+    None
 }
 
 /// Howard Hinnant, "chrono-Compatible Low-Level Date Algorithms", civil_from_days.
@@ -182,7 +185,7 @@ impl Oracle {
         }
     }
 
-    fn observe(&mut self, sec: i64, nsec: u32, got: &str) {
+    fn observe(&mut self, sec: i64, nsec: u32, got: &str, panic_msg: Option<String>) {
         self.n += 1;
         if got == "!unrepresentable" {
             self.prev = None;
@@ -192,7 +195,7 @@ impl Oracle {
         let in_rfc = (0..=9999).contains(&want.y);
         if got.starts_with('!') {
             self.panics += 1;
-            self.fail("panic", sec, nsec, got, String::new());
+            self.fail("panic", sec, nsec, got, panic_msg.unwrap_or_default());
             self.prev = None;
             return;
         }
@@ -242,9 +245,9 @@ fn main() {
         match p[0] {
             "P" => match (num(1), num(2)) {
                 (Some(sec), Some(nsec)) if sec >= i64::MIN as i128 && sec <= i64::MAX as i128 && (0..1_000_000_000).contains(&nsec) => {
-                    real_format(sec as i64, nsec as u32, &mut buf);
+                    let msg = real_format(sec as i64, nsec as u32, &mut buf);
                     writeln!(out, "{}", buf).unwrap();
-                    o.observe(sec as i64, nsec as u32, &buf);
+                    o.observe(sec as i64, nsec as u32, &buf, msg);
                 }
                 _ => bad_lines += 1,
             },
@@ -256,9 +259,9 @@ fn main() {
                             bad_lines += 1;
                             break;
                         }
-                        real_format(sec as i64, nsec as u32, &mut buf);
+                        let msg = real_format(sec as i64, nsec as u32, &mut buf);
                         writeln!(out, "{}", buf).unwrap();
-                        o.observe(sec as i64, nsec as u32, &buf);
+                        o.observe(sec as i64, nsec as u32, &buf, msg);
                     }
                 }
                 _ => bad_lines += 1,
